@@ -199,6 +199,9 @@ func c05Gen() *rapid.Generator[c05Case] {
 		} else {
 			f = genForest(forestParams{maxNodes: maxNodes, maxDepth: maxDepth, names: names, oneRoot: !strings.HasPrefix(entry, "md")}).Draw(t, "forest")
 		}
+		if rapid.IntRange(0, 29).Draw(t, "long") == 0 {
+			withLongName(t, f)
+		}
 		c := c05Case{Forest: f, Entry: entry, Branch: genBranch().Draw(t, "branch"), StopAt: -1}
 		c.Sp = genSpelling(f.HeadingOK()).Draw(t, "spelling")
 		if rapid.Bool().Draw(t, "stop") {
